@@ -109,7 +109,7 @@ pub fn drive<F>(
 where
     F: Fn(&[u8]) -> CaseResult + Sync,
 {
-    drive_opts(seed, total_cases, max_len, tolerated, 600, 6000, f)
+    drive_opts(seed, total_cases, max_len, tolerated, 300, 1500, f)
 }
 
 thread_local! {
